@@ -426,4 +426,151 @@ def events (cfg : PCfg) (d : Doc) : List Event :=
     let p2 := evPis c r.2.attr d.post
     .startDoc c.charset l.id :: (p1.1 ++ (r.1 ++ (p2.1 ++ [.endDoc])))
 
+/-! ## Well-formedness
+
+  Decidable (`Bool`-valued) side conditions under which the meaning above is defined. Every
+  conjunct excludes a shape at which the grammar or a referenced standard assigns no meaning;
+  `DESIGN_NOTES/C04_proofs.md` records, conjunct by conjunct, what the real parser does there. -/
+
+/-- The only character sets for which strings can be delivered (US-ASCII, UTF-8). -/
+def csOk (c : Ctx) : Bool := c.charset == 3 || c.charset == 106
+
+/-- Facts about the string table that the header guarantees: its length fits an `mb_u_int32`
+    and a non-empty table ends with a terminator. -/
+def Ctx.ok (c : Ctx) : Bool :=
+  decide (c.tbl.length < 4294967296) && (c.tbl.isEmpty || c.tbl.getLast? == some 0)
+
+def nulFree (s : Bytes) : Bool := s.all (· != 0)
+
+def wfSw : Option Nat → Bool
+  | none => true
+  | some p => decide (p < 256)
+
+/-- Tag tokens: 0x05–0x3F (the low six bits of the tag octet, global tokens excluded). -/
+def isTagTok (t : Nat) : Bool := decide (5 ≤ t) && decide (t < 0x40)
+
+/-- Attribute start tokens: below 0x80 and not a global token (0x00–0x04, 0x40–0x44). -/
+def isAttrStartTok (t : Nat) : Bool :=
+  (decide (5 ≤ t) && decide (t < 0x40)) || (decide (0x45 ≤ t) && decide (t < 0x80))
+
+/-- Attribute value tokens: 0x80 and above and not a global token (0x80–0x84, 0xC0–0xC4). -/
+def isAttrValueTok (t : Nat) : Bool :=
+  (decide (0x85 ≤ t) && decide (t < 0xC0)) || (decide (0xC5 ≤ t) && decide (t < 0x100))
+
+def wfStr (c : Ctx) : Str → Bool
+  | .inl s => csOk c && nulFree s
+  | .tbl off => csOk c && decide (off < c.tbl.length)
+
+def wfExt (c : Ctx) : Ext → Bool
+  | .inl k s => decide (k < 3) && isWml c.lang.id && csOk c && nulFree s
+  | .tbl k v =>
+    decide (k < 3) &&
+    (if isWml c.lang.id then csOk c && decide (v < c.tbl.length)
+     else isWv c.lang.id && k == 0 && c.lang.exts.isSome && decide (v < 4294967296))
+  | .tok k => decide (k < 3)
+
+def wfEntity (code : Nat) : Bool := decide (isScalar code) && code != 0
+
+def wfAVal (c : Ctx) (ap : Nat) : AVal → Bool
+  | .tok sw t => wfSw sw && isAttrValueTok t && (valRow c (swPage sw ap) t).isSome
+  | .str s => wfStr c s
+  | .entity code => wfEntity code
+  | .opaque d => decide (d.length < 4294967296) && (opaqueAttrText c d).isSome
+  | .ext sw x => wfSw sw && wfExt c x
+
+def wfAVals (c : Ctx) (ap : Nat) : List AVal → Bool
+  | [] => true
+  | v :: vs => wfAVal c ap v && wfAVals c (avalText c ap v).2 vs
+
+def wfAStart (c : Ctx) (ap : Nat) : AStart → Bool
+  | .tok sw t => wfSw sw && isAttrStartTok t && (attrRow c (swPage sw ap) t).isSome
+  | .lit off => csOk c && decide (off < c.tbl.length)
+
+/-- Start and pieces of an attribute or processing instruction. -/
+def wfPi (c : Ctx) (ap : Nat) (a : Attribute) : Bool :=
+  wfAStart c ap a.start && wfAVals c (astartName c ap a.start).2.2 a.vals
+
+def wfAttr (c : Ctx) (ap : Nat) (a : Attribute) : Bool :=
+  wfPi c ap a &&
+  (let st := astartName c ap a.start
+   (attrValueText c st.1 (st.2.1 ++ (avalsText c st.2.2 a.vals).1)).isSome)
+
+def wfAttrs (c : Ctx) (ap : Nat) : List Attribute → Bool
+  | [] => true
+  | a :: as => wfAttr c ap a && wfAttrs c (evAttr c ap a).2 as
+
+def wfPis (c : Ctx) (ap : Nat) : List Attribute → Bool
+  | [] => true
+  | a :: as => wfPi c ap a && wfPis c (evPi c ap a).2 as
+
+def wfTag (c : Ctx) (tp : Nat) : Tag → Bool
+  | .tok t => isTagTok t && (tagRow c tp t).isSome
+  | .lit off => csOk c && decide (off < c.tbl.length)
+
+/-- The typed-content slot the parser keeps (`current_tag`): set by a token tag, kept by a
+    literal tag. -/
+def slotOfTag (own slot : Option TagRow) : Tag → Option TagRow
+  | .tok _ => own
+  | .lit _ => slot
+
+/-- … and cleared whenever an element ends. -/
+def slotAfter (slot : Option TagRow) : Item → Option TagRow
+  | .elem _ => none
+  | _ => slot
+
+mutual
+/-- `slot` = the tag whose typed-content rule the parser's single `current_tag` slot would apply
+    here; an opaque item must get from it what its own element's tag gives (`wfItem`). -/
+def wfElem (c : Ctx) (slot : Option TagRow) (pg : Pages) : Elem → Bool
+  | .mk sw tag attrs content =>
+    wfSw sw && wfTag c (swPage sw pg.tag) tag && wfAttrs c pg.attr attrs &&
+    wfContent c (tagName c (swPage sw pg.tag) tag).2
+      (slotOfTag (tagName c (swPage sw pg.tag) tag).2 slot tag)
+      ⟨swPage sw pg.tag, (evAttrs c pg.attr attrs).2⟩ content
+def wfContent (c : Ctx) (own slot : Option TagRow) (pg : Pages) : Option (List Item) → Bool
+  | none => true
+  | some items => wfItems c own slot pg items
+def wfItems (c : Ctx) (own slot : Option TagRow) (pg : Pages) : List Item → Bool
+  | [] => true
+  | it :: rest => wfItem c own slot pg it && wfItems c own (slotAfter slot it) (evItem c own pg it).2 rest
+def wfItem (c : Ctx) (own slot : Option TagRow) (pg : Pages) : Item → Bool
+  | .elem e => wfElem c slot pg e
+  | .str s => wfStr c s
+  | .entity code => wfEntity code
+  | .opaque d =>
+    decide (d.length < 4294967296) && (opaqueText c own d).isSome &&
+    (opaqueText c slot d == opaqueText c own d)
+  | .ext sw x => wfSw sw && wfExt c x
+  | .pi a => wfPi c pg.attr a
+end
+
+def wfPubid (cfg : PCfg) (h : Header) : Bool :=
+  match h.pubid with
+  | .num id => decide (0 < id) && decide (id < 4294967296)
+  | .str idx =>
+    decide (idx < 4294967295) &&
+    (cfg.langForced != 0 ||
+      (decide (idx < (tblBytes h.strtbl).length) &&
+       (headerCharset cfg h == 3 || headerCharset cfg h == 106)))
+
+def wfHeader (cfg : PCfg) (h : Header) : Bool :=
+  decide (h.version < 256) && wfPubid cfg h &&
+  (h.version == 0 || (decide (h.charset < 4294967296) && cfg.charsets.contains (headerCharset cfg h))) &&
+  decide ((tblBytes h.strtbl).length < 4294967296)
+
+def Doc.wf (cfg : PCfg) (d : Doc) : Bool :=
+  wfHeader cfg d.hdr &&
+  match headerLang cfg d.hdr with
+  | none => false
+  | some l =>
+    let c := headerCtx cfg d.hdr l
+    let p1 := evPis c 0 d.pre
+    let r := evElem c ⟨0, p1.2⟩ d.root
+    wfPis c 0 d.pre && wfElem c none ⟨0, p1.2⟩ d.root && wfPis c r.2.attr d.post
+
+/-- Well-formed documents over the languages of `cfg.main`. -/
+def Doc.WF (cfg : PCfg) (d : Doc) : Prop := d.wf cfg = true
+
+instance (cfg : PCfg) (d : Doc) : Decidable (d.WF cfg) := by unfold Doc.WF; infer_instance
+
 end Wbxml.Spec
